@@ -1,5 +1,6 @@
 (* helpers shared by every driver; compiled per driver directory against that
    directory's extracted Model (for its [nat] type). *)
+module ZA = Z   (* zarith's Z, captured before Model (which may define its own module Z) is opened *)
 open Model
 
 let rec nat_of_int (n : int) : nat = if n <= 0 then O else S (nat_of_int (n - 1))
@@ -33,9 +34,9 @@ let hex_of_bytes (l : Big_int_Z.big_int list) : string =
 (* big integers as lower-case hex without prefix ("0" for zero); negative with '-' *)
 let z_of_hex (s : string) : Big_int_Z.big_int =
   if s = "" then Big_int_Z.zero_big_int
-  else if s.[0] = '-' then Z.neg (Z.of_string_base 16 (String.sub s 1 (String.length s - 1)))
-  else Z.of_string_base 16 s
-let hex_of_z (z : Big_int_Z.big_int) : string = Z.format "%x" z
+  else if s.[0] = '-' then ZA.neg (ZA.of_string_base 16 (String.sub s 1 (String.length s - 1)))
+  else ZA.of_string_base 16 s
+let hex_of_z (z : Big_int_Z.big_int) : string = ZA.format "%x" z
 
 let split_on (c : char) (s : string) : string list =
   if s = "" then [] else String.split_on_char c s
